@@ -1,4 +1,5 @@
 """C07 helper: string / binary parameter types from abstract encodings (constructors and XML), observation."""
+import json
 import warnings
 
 from harness import crit
@@ -101,13 +102,21 @@ def type_from_xml(name, enc, od=False):
     return cls.from_xml(etree.fromstring(xml_type(name, enc, od)))
 
 
-def observe(enc, env, pkt, pos, via="ctor", od=False):
+def observe(enc, env, pkt, pos, via="ctor", od=False, shared=None):
+    """shared: a dict in which the type object built for (enc, via, od) is kept, so that ONE object decodes every case of that
+    layout, as a loaded definition does for every packet of a stream."""
     from space_packet_parser import packets
     none = {"k": "", "text": [], "raw": [], "adv": 0}
     with warnings.catch_warnings():
         warnings.simplefilter("ignore")
         try:
-            t = obj_type("T", enc) if via == "ctor" else type_from_xml("T", enc, od)
+            if shared is not None:
+                key = (json.dumps(enc, sort_keys=True), via, od)
+                t = shared.get(key)
+                if t is None:
+                    t = shared[key] = obj_type("T", enc) if via == "ctor" else type_from_xml("T", enc, od)
+            else:
+                t = obj_type("T", enc) if via == "ctor" else type_from_xml("T", enc, od)
         except Exception as e:  # noqa: BLE001
             return dict(none, k="build-error", note=f"{type(e).__name__}: {e}"[:120])
         p = crit.packet_of(env)
